@@ -57,18 +57,22 @@ theorem absS_setA_fresh (s : H) (a : ARef) (o : PyAttacker) (nf : Nat) :
 
 /-! ### the conversion of the keys -/
 
+/-- the error of the conversion of a list of keys: that of the first key that is no number (`ValueError`, or not modelled) -/
+def mapMKeyErr (ks : List Key) : PyErr :=
+  match ks.find? (fun k => k.toInt?.isNone) with | some k => keyIntErr k | none => .valueError
+
 theorem mapM_keyInt (ks : List Key) :
-    ks.mapM keyInt = match ks.mapM (·.toInt?) with | some l => .ok l | none => .error .valueError := by
+    ks.mapM keyInt = match ks.mapM (·.toInt?) with | some l => .ok l | none => .error (mapMKeyErr ks) := by
   induction ks with
   | nil => rfl
   | cons k ks ih =>
     rw [List.mapM_cons, List.mapM_cons, ih]
     unfold keyInt
-    cases k.toInt? with
-    | none => rfl
+    cases hk : k.toInt? with
+    | none => simp [mapMKeyErr, List.find?, hk]; rfl
     | some i =>
       cases ks.mapM (·.toInt?) with
-      | none => rfl
+      | none => simp [mapMKeyErr, List.find?, hk]; rfl
       | some l => rfl
 
 /-! ### one iteration -/
